@@ -2,7 +2,7 @@ import RrModel.Go.Strings
 import RrModel.Go.Header
 /-
   util/compress.go (acceptsEncodingFromString, GetRecompression, fallbackCompressionWithDefault,
-  ContentEncodingFromCompressionType), proxy/proxy.go (canTransform and the gate at 267-270),
+  ContentEncodingFromCompressionType), proxy/proxy.go (canTransform and the gate at 271-274),
   server/server.go requestHandler 537-576 + writeError (the header rewrite and what is written
   as body) — written branch for branch.
 
@@ -71,7 +71,7 @@ def contentEncodingFromCompressionType : CType → Bytes
   | .brotli => b!"br"
   | .none => []
 
-/-- proxy.go:310-316 -/
+/-- proxy.go:314-320 -/
 def canTransform (cc : Bytes) : Bool :=
   if cc.length > 0 then (index b!"no-transform" (toLower cc)).isNone else true
 
@@ -170,9 +170,14 @@ structure Response where
   headers : Header
   body : Bytes
 
-/-- proxy.go:267-270 -/
+/-- proxy.go:272 — what the gate hands to `canTransform`: ALL Cache-Control lines of the origin's
+    response, `strings.Join(mainResp.Header.Values("cache-control"), ", ")` (it used to be the
+    first line only, `Header.Get`: the former finding C06-d, repaired) -/
+def cacheControlOf (h : Header) : Bytes := join b!", " (h.values kCacheControl)
+
+/-- proxy.go:271-274 -/
 def decision (x : Input) : Recompression :=
-  if x.flag && canTransform (x.originHeaders.get kCacheControl) then
+  if x.flag && canTransform (cacheControlOf x.originHeaders) then
     getRecompression x.ae (x.originHeaders.get kContentEncoding) (x.originHeaders.get kContentType)
   else { add := .none, remove := .none }
 
